@@ -1342,10 +1342,15 @@ func (g *Graph) buildPoolStmtsSimple(pool []*node) ([]InjectorStmt, error) {
 	return stmts, nil
 }
 
-// inaccessibleTypeName returns a type name in the spelling of t that code of package pkg cannot refer to:
-// an unexported name of another package, or a name of an internal package of another tree; nil if there is none.
-func inaccessibleTypeName(t types.Type, pkg string) *types.TypeName {
-	check := func(obj *types.TypeName, args *types.TypeList) *types.TypeName {
+// inaccessibleTypeName returns a name in the spelling of t that code of package pkg cannot refer to:
+// an unexported type name of another package, a type name of an internal package of another tree, or an
+// unexported field or method of an unnamed struct or interface type of another package (written in pkg,
+// struct{ x int } is a different type); nil if there is none.
+func inaccessibleTypeName(t types.Type, pkg string) types.Object {
+	foreign := func(obj types.Object) bool {
+		return !obj.Exported() && obj.Pkg() != nil && obj.Pkg().Path() != pkg
+	}
+	check := func(obj *types.TypeName, args *types.TypeList) types.Object {
 		if objPkg := obj.Pkg(); objPkg != nil && objPkg.Path() != pkg {
 			if !obj.Exported() {
 				return obj
@@ -1396,7 +1401,19 @@ func inaccessibleTypeName(t types.Type, pkg string) *types.TypeName {
 		}
 	case *types.Struct:
 		for field := range typ.Fields() {
+			if foreign(field) {
+				return field
+			}
 			if found := inaccessibleTypeName(field.Type(), pkg); found != nil {
+				return found
+			}
+		}
+	case *types.Interface:
+		for method := range typ.Methods() {
+			if foreign(method) {
+				return method
+			}
+			if found := inaccessibleTypeName(method.Type(), pkg); found != nil {
 				return found
 			}
 		}
